@@ -456,13 +456,15 @@ func (f *Func) reachTarget(
 		// reached, that value's name stays the preferred one: the converter's
 		// type-only inputs should be fed by the same-named value as well.
 		// A named input of such a converter adds its own name to the
-		// preferred ones, it does not replace them -- but its own name comes
-		// first: the inherited names get a smaller discount.
-		own := ""
+		// preferred ones, it does not replace them -- but the nearer a name
+		// is, the more it counts: the nearest one (the own name, or the
+		// innermost inherited one for a type-only argument) gets the full
+		// discount, the names from further out smaller and smaller ones.
+		names := state.Affinity
 		if currentValue, ok := current.(*valueVertex); ok {
-			own = currentValue.Name
+			names = append(names[:len(names):len(names)], currentValue.Name)
 		}
-		if own != "" || len(state.Affinity) > 0 {
+		if len(names) > 0 {
 			currentG = currentG.Copy()
 			for _, raw := range currentG.Vertices() {
 				v, ok := raw.(*valueVertex)
@@ -470,15 +472,32 @@ func (f *Func) reachTarget(
 					continue
 				}
 
-				weight, preferred := weightMatchingName, v.Name == own
-				if !preferred {
-					weight = weightInheritedName
-					for _, name := range state.Affinity {
-						preferred = preferred || v.Name == name
+				// How far out is the nearest use of this vertex's name?
+				rank := -1
+				for i := len(names) - 1; i >= 0; i-- {
+					if v.Name == names[i] {
+						rank = len(names) - 1 - i
+						break
 					}
 				}
-				if preferred {
-					for _, src := range currentG.InEdges(raw) {
+				if rank < 0 {
+					continue
+				}
+
+				for _, src := range currentG.InEdges(raw) {
+					if rank == 0 {
+						currentG.AddEdgeWeighted(src, raw, weightMatchingName)
+						continue
+					}
+
+					// The smaller discounts only make sense for the edges
+					// from typed arguments: all other edges to a value are
+					// not more expensive than that to begin with.
+					if _, ok := src.(*typedArgVertex); ok {
+						weight := weightInheritedName + rank - 1
+						if weight >= weightTyped {
+							weight = weightTyped - 1
+						}
 						currentG.AddEdgeWeighted(src, raw, weight)
 					}
 				}
